@@ -18,6 +18,7 @@
 #include <new>
 #include <ostream>
 #include <set>
+#include <sstream>
 #include <streambuf>
 #include <nano/core/random.h>
 #include <nano/core/stream.h>
@@ -28,6 +29,7 @@
 #include <nano/gboost/model.h>
 #include <nano/generator/elemwise_identity.h>
 #include <nano/linear.h>
+#include <nano/logger.h>
 #include <nano/loss.h>
 #include <nano/lsearch0.h>
 #include <nano/lsearchk.h>
@@ -39,6 +41,7 @@
 #include <nano/tuner.h>
 #include <nano/wlearner.h>
 #include <nano/wlearner/affine.h>
+#include <nano/wlearner/criterion.h>
 #include <nano/wlearner/dtree.h>
 #include <nano/wlearner/hinge.h>
 #include <nano/wlearner/stump.h>
@@ -514,6 +517,7 @@ void enumerate_faults(case_t& k, const std::string& object, const stream_t& s, c
     if (unverified > 0)
     {
         c.count("tensor_candidates_unverified", unverified);
+        c.count("tensor_candidates_unverified:" + object, unverified);
     }
 
     std::string work = bytes;
@@ -564,7 +568,11 @@ void enumerate_faults(case_t& k, const std::string& object, const stream_t& s, c
                 c.count("header_corruptions");
                 c.count(o == outcome_t::accepted ? "header_corruption_accepted" : "header_corruption_rejected");
             };
-            if (hvalues == header_values::all)
+            // the three upper bytes of a dimension only decide how many MiB/GiB the reader asks the allocator for:
+            // a handful of values there (every value would only measure the allocator, DESIGN 3/C15 FA)
+            const auto rel      = i - loc.m_begin;
+            const bool dim_high = rel >= 8 && rel < 8 + 4 * static_cast<size_t>(loc.m_rank) && ((rel - 8) % 4) != 0;
+            if (hvalues == header_values::all && !dim_high)
             {
                 for (unsigned delta = 1; delta < 256; ++delta)
                 {
@@ -866,8 +874,1186 @@ void run_tensor_case(vf::ctx_t& c, size_t max_payload)
     }
 }
 
-//@@OBJECTS@@
-//@@MODELS@@
+// ------------------------------------------------------------------------------------------------
+// mode: objects (parameters, features, factory objects, un-fitted models)
+
+std::string gen_string(vf::rng_t& rng, int64_t max_len = 24)
+{
+    const auto  len   = rng.chance(0.1) ? 0 : rng.integer(1, max_len);
+    const auto  style = rng.integer(0, 3);
+    std::string s;
+    for (int64_t i = 0; i < len; ++i)
+    {
+        if (style == 0)
+        {
+            s += static_cast<char>(rng.integer(0, 255)); // any byte, NUL included
+        }
+        else if (style == 1)
+        {
+            s += static_cast<char>(rng.integer(32, 126));
+        }
+        else
+        {
+            static const char alphabet[] = "abcdefghijklmnopqrstuvwxyz0123456789_:-";
+            s += alphabet[rng.integer(0, static_cast<int64_t>(sizeof(alphabet)) - 2)];
+        }
+    }
+    return s;
+}
+
+LEorLT gen_comp(vf::rng_t& rng)
+{
+    return rng.chance(0.5) ? LEorLT{LE} : LEorLT{LT};
+}
+
+int64_t gen_int_between(vf::rng_t& rng, int64_t lo, int64_t hi) // inclusive, lo <= hi, no signed overflow
+{
+    const auto span = static_cast<uint64_t>(hi) - static_cast<uint64_t>(lo);
+    const auto r    = (span == ~uint64_t(0)) ? rng.next() : rng.next() % (span + 1);
+    return static_cast<int64_t>(static_cast<uint64_t>(lo) + r);
+}
+
+bool same_comp(const LEorLT& a, const LEorLT& b)
+{
+    return a.index() == b.index();
+}
+
+///
+/// \brief field-by-field, bit-exact comparison of two parameters (independent of the library's operator==).
+///
+bool same_param(const parameter_t& a, const parameter_t& b)
+{
+    if (a.name() != b.name() || a.storage().index() != b.storage().index())
+    {
+        return false;
+    }
+    return std::visit(
+        overloaded{[&](const std::monostate&) { return true; },
+                   [&](const parameter_t::enum_t& x)
+                   {
+                       const auto& y = std::get<parameter_t::enum_t>(b.storage());
+                       return x.m_value == y.m_value && x.m_domain == y.m_domain;
+                   },
+                   [&](const parameter_t::irange_t& x)
+                   {
+                       const auto& y = std::get<parameter_t::irange_t>(b.storage());
+                       return x.m_value == y.m_value && x.m_min == y.m_min && x.m_max == y.m_max &&
+                              same_comp(x.m_mincomp, y.m_mincomp) && same_comp(x.m_maxcomp, y.m_maxcomp);
+                   },
+                   [&](const parameter_t::frange_t& x)
+                   {
+                       const auto& y = std::get<parameter_t::frange_t>(b.storage());
+                       return same_bits(x.m_value, y.m_value) && same_bits(x.m_min, y.m_min) &&
+                              same_bits(x.m_max, y.m_max) && same_comp(x.m_mincomp, y.m_mincomp) &&
+                              same_comp(x.m_maxcomp, y.m_maxcomp);
+                   },
+                   [&](const parameter_t::iprange_t& x)
+                   {
+                       const auto& y = std::get<parameter_t::iprange_t>(b.storage());
+                       return x.m_value1 == y.m_value1 && x.m_value2 == y.m_value2 && x.m_min == y.m_min &&
+                              x.m_max == y.m_max && same_comp(x.m_mincomp, y.m_mincomp) &&
+                              same_comp(x.m_valcomp, y.m_valcomp) && same_comp(x.m_maxcomp, y.m_maxcomp);
+                   },
+                   [&](const parameter_t::fprange_t& x)
+                   {
+                       const auto& y = std::get<parameter_t::fprange_t>(b.storage());
+                       return same_bits(x.m_value1, y.m_value1) && same_bits(x.m_value2, y.m_value2) &&
+                              same_bits(x.m_min, y.m_min) && same_bits(x.m_max, y.m_max) &&
+                              same_comp(x.m_mincomp, y.m_mincomp) && same_comp(x.m_valcomp, y.m_valcomp) &&
+                              same_comp(x.m_maxcomp, y.m_maxcomp);
+                   },
+                   [&](const string_t& x) { return x == std::get<string_t>(b.storage()); }},
+        a.storage());
+}
+
+bool same_params(const parameters_t& a, const parameters_t& b)
+{
+    if (a.size() != b.size())
+    {
+        return false;
+    }
+    for (size_t i = 0; i < a.size(); ++i)
+    {
+        if (!same_param(a[i], b[i]) || !(a[i] == b[i]) || (a[i] != b[i]))
+        {
+            return false;
+        }
+    }
+    return true;
+}
+
+bool same_configurable(const configurable_t& a, const configurable_t& b)
+{
+    return same_params(a.parameters(), b.parameters()) && a.major_version() == b.major_version() &&
+           a.minor_version() == b.minor_version() && a.patch_version() == b.patch_version();
+}
+
+std::string param_text(const parameter_t& p)
+{
+    std::ostringstream os;
+    os << p;
+    return os.str();
+}
+
+std::string params_text(const configurable_t& o)
+{
+    std::string s;
+    for (const auto& p : o.parameters())
+    {
+        s += param_text(p) + "; ";
+    }
+    return s.substr(0, 600);
+}
+
+bool same_feature(const feature_t& a, const feature_t& b)
+{
+    return a.type() == b.type() && a.dims() == b.dims() && a.name() == b.name() && a.labels() == b.labels() &&
+           (a == b) && !(a != b);
+}
+
+bool same_features(const features_t& a, const features_t& b)
+{
+    if (a.size() != b.size())
+    {
+        return false;
+    }
+    for (size_t i = 0; i < a.size(); ++i)
+    {
+        if (!same_feature(a[i], b[i]))
+        {
+            return false;
+        }
+    }
+    return true;
+}
+
+parameter_t gen_parameter(vf::rng_t& rng, std::string& kind)
+{
+    const auto name = gen_string(rng);
+    switch (rng.integer(0, 6))
+    {
+    case 0:
+    {
+        kind = "enum";
+        switch (rng.integer(0, 4))
+        {
+        case 0: return parameter_t::make_enum(name, rng.pick(std::vector<gboost_shrinkage>{gboost_shrinkage::off, gboost_shrinkage::global, gboost_shrinkage::local}));
+        case 1: return parameter_t::make_enum(name, rng.pick(std::vector<gboost_wscale>{gboost_wscale::gboost, gboost_wscale::tboost}));
+        case 2: return parameter_t::make_enum(name, rng.pick(std::vector<scaling_type>{scaling_type::none, scaling_type::mean, scaling_type::minmax, scaling_type::standard}));
+        case 3: return parameter_t::make_enum(name, rng.pick(std::vector<feature_type>{feature_type::int8, feature_type::uint64, feature_type::float32, feature_type::sclass, feature_type::mclass}));
+        default: return parameter_t::make_enum(name, rng.pick(std::vector<wlearner_criterion>{wlearner_criterion::rss, wlearner_criterion::aic, wlearner_criterion::aicc, wlearner_criterion::bic}));
+        }
+    }
+    case 1:
+    {
+        kind           = "integer";
+        const auto big = rng.chance(0.2);
+        const auto min = big ? std::numeric_limits<int64_t>::min() + rng.integer(0, 3) : rng.integer(-1000000, 1000000);
+        const auto max = big ? std::numeric_limits<int64_t>::max() - rng.integer(0, 3) : min + rng.integer(4, 2000000);
+        const auto val = rng.chance(0.2) ? min + 1 : rng.chance(0.25) ? max - 1 : gen_int_between(rng, min + 1, max - 1);
+        return parameter_t::make_integer(name, min, gen_comp(rng), val, gen_comp(rng), max);
+    }
+    case 2:
+    {
+        kind             = "scalar";
+        const auto scale = rng.loguniform(1e-12, 1e12);
+        const auto min   = rng.chance(0.05) ? -std::numeric_limits<scalar_t>::infinity() : scale * rng.uniform(-1.0, 1.0);
+        const auto max   = rng.chance(0.05) ? std::numeric_limits<scalar_t>::infinity()
+                                            : (std::isfinite(min) ? min : 0.0) + scale * rng.uniform(0.1, 2.0);
+        const auto lo    = std::isfinite(min) ? min : max - scale;
+        const auto hi    = std::isfinite(max) ? max : lo + scale;
+        const auto val   = lo + (hi - lo) * rng.uniform(0.05, 0.95);
+        return parameter_t::make_scalar(name, min, gen_comp(rng), val, gen_comp(rng), max);
+    }
+    case 3:
+    {
+        kind           = "integer-pair";
+        const auto min = rng.integer(-1000000, 1000000);
+        const auto max = min + rng.integer(6, 2000000);
+        const auto v1  = gen_int_between(rng, min + 1, max - 3);
+        const auto v2  = gen_int_between(rng, v1 + 1, max - 1);
+        return parameter_t::make_integer_pair(name, min, gen_comp(rng), v1, gen_comp(rng), v2, gen_comp(rng), max);
+    }
+    case 4:
+    {
+        kind             = "scalar-pair";
+        const auto scale = rng.loguniform(1e-9, 1e9);
+        const auto min   = scale * rng.uniform(-1.0, 1.0);
+        const auto max   = min + scale * rng.uniform(0.5, 2.0);
+        const auto u1    = rng.uniform(0.05, 0.45);
+        const auto u2    = rng.uniform(0.55, 0.95);
+        return parameter_t::make_scalar_pair(name, min, gen_comp(rng), min + (max - min) * u1, gen_comp(rng),
+                                             min + (max - min) * u2, gen_comp(rng), max);
+    }
+    case 5: kind = "string"; return parameter_t::make_string(name, gen_string(rng, 40));
+    default: kind = "empty"; return parameter_t{};
+    }
+}
+
+feature_t gen_feature(vf::rng_t& rng)
+{
+    auto       feature = feature_t{gen_string(rng)};
+    const auto labels  = [&]()
+    {
+        strings_t ls(static_cast<size_t>(rng.integer(0, 6)));
+        for (auto& l : ls)
+        {
+            l = gen_string(rng, 10);
+        }
+        return ls;
+    };
+    switch (rng.integer(0, 3))
+    {
+    case 0: feature.sclass(labels()); break;
+    case 1: feature.mclass(labels()); break;
+    case 2: break; // default state
+    default:
+        feature.scalar(static_cast<feature_type>(rng.integer(0, 9)),
+                       make_dims(rng.integer(1, 4), rng.integer(1, 4), rng.integer(1, 3)));
+        break;
+    }
+    return feature;
+}
+
+///
+/// \brief move every parameter of a configurable object to a random point of its own domain.
+///
+void fuzz_parameters(vf::rng_t& rng, configurable_t& object, double probability)
+{
+    const auto params = object.parameters(); // copy: the domains
+    for (const auto& param : params)
+    {
+        if (!rng.chance(probability))
+        {
+            continue;
+        }
+        auto& target = object.parameter(param.name());
+        try
+        {
+            std::visit(overloaded{[&](const std::monostate&) {},
+                                  [&](const parameter_t::enum_t& e)
+                                  {
+                                      if (!e.m_domain.empty())
+                                      {
+                                          target = string_t{rng.pick(e.m_domain)};
+                                      }
+                                  },
+                                  [&](const parameter_t::irange_t& r)
+                                  {
+                                      const auto lo = r.m_min + (r.m_mincomp.index() == 1 ? 1 : 0);
+                                      const auto hi = r.m_max - (r.m_maxcomp.index() == 1 ? 1 : 0);
+                                      if (lo <= hi)
+                                      {
+                                          target = rng.chance(0.2) ? lo : rng.chance(0.25) ? hi : gen_int_between(rng, lo, hi);
+                                      }
+                                  },
+                                  [&](const parameter_t::frange_t& r)
+                                  {
+                                      const auto u = rng.chance(0.1) ? 0.0 : rng.chance(0.1) ? 1.0 : rng.u01();
+                                      const auto v = r.m_min * (1.0 - u) + r.m_max * u;
+                                      if (std::isfinite(v))
+                                      {
+                                          target = v; // the library rejects it when outside (strict bounds)
+                                      }
+                                  },
+                                  [&](const parameter_t::iprange_t& r)
+                                  {
+                                      const auto lo = r.m_min + 1;
+                                      const auto hi = r.m_max - 1;
+                                      if (lo < hi)
+                                      {
+                                          const auto v1 = gen_int_between(rng, lo, hi - 1);
+                                          const auto v2 = gen_int_between(rng, v1 + 1, hi);
+                                          target        = std::make_tuple(v1, v2);
+                                      }
+                                  },
+                                  [&](const parameter_t::fprange_t& r)
+                                  {
+                                      const auto u1 = rng.uniform(0.01, 0.49);
+                                      const auto u2 = rng.uniform(0.51, 0.99);
+                                      const auto v1 = r.m_min * (1.0 - u1) + r.m_max * u1;
+                                      const auto v2 = r.m_min * (1.0 - u2) + r.m_max * u2;
+                                      if (std::isfinite(v1) && std::isfinite(v2))
+                                      {
+                                          target = std::make_tuple(v1, v2);
+                                      }
+                                  },
+                                  [&](const string_t&) { target = gen_string(rng, 30); }},
+                       param.storage());
+        }
+        catch (const std::exception&)
+        {
+            // out of the domain after all (open bound hit exactly): the previous value stays
+        }
+    }
+}
+
+///
+/// \brief round trip + faults of one value type with member or free read/write (parameter, feature, vectors of them).
+///
+template <class tvalue, class tsame, class tdescribe>
+void check_value(case_t& k, const std::string& object, const tvalue& value, const tsame& same, const tdescribe& describe)
+{
+    auto&      c = k.m_c;
+    const auto s = record([&](std::ostream& os) { ::nano::write(os, value); });
+    if (!check_written(k, object, s))
+    {
+        return;
+    }
+    {
+        tvalue     copy{};
+        size_t     remaining = 0;
+        const auto o =
+            attempt(s.m_bytes.data(), s.m_bytes.size(), [&](std::istream& is) { ::nano::read(is, copy); }, &remaining);
+        c.count("roundtrips");
+        if (o != outcome_t::accepted)
+        {
+            k.violation("C15|roundtrip|read-failed|" + object, describe().kv("outcome", name(o)));
+            return;
+        }
+        if (!same(value, copy) || remaining != 0)
+        {
+            k.violation("C15|roundtrip|content-differs|" + object,
+                        describe().kv("unread_bytes", static_cast<unsigned long long>(remaining)));
+            return;
+        }
+        const auto s2 = record([&](std::ostream& os) { ::nano::write(os, copy); });
+        c.count("reserializations");
+        if (!s2.m_good || s2.m_bytes != s.m_bytes)
+        {
+            k.violation("C15|roundtrip|reserialization-differs|" + object, describe());
+        }
+    }
+    enumerate_faults(
+        k, object, s,
+        [](std::istream& is)
+        {
+            tvalue fresh{};
+            ::nano::read(is, fresh);
+        },
+        header_values::masks);
+    c.maxc("stream_bytes", static_cast<int64_t>(s.m_bytes.size()));
+}
+
+///
+/// \brief a factory object: member write/read into a fresh object of the same id, factory-style write/read
+///     (type id + object) and a vector of factory objects.
+///
+template <class tobject>
+void check_factory(case_t& k, const char* family, uint64_t& nt_hash, vf::json_t& decoded)
+{
+    auto&      c   = k.m_c;
+    auto&      rng = c.rng;
+    const auto ids = tobject::all().ids();
+    const auto id  = rng.pick(ids);
+    auto       obj = tobject::all().get(id);
+    const bool fuzzed = rng.chance(0.75);
+    if (fuzzed)
+    {
+        fuzz_parameters(rng, *obj, rng.uniform(0.3, 1.0));
+    }
+    const auto object   = std::string(family) + ":" + id;
+    const auto describe = [&]()
+    {
+        vf::json_t j;
+        j.kv("object", object).kv("fuzzed", fuzzed).kv("parameters", params_text(*obj));
+        return j;
+    };
+    decoded = describe();
+
+    // (a) member functions
+    const auto s = record([&](std::ostream& os) { obj->write(os); });
+    if (!check_written(k, object, s))
+    {
+        return;
+    }
+    {
+        auto       copy      = tobject::all().get(id);
+        size_t     remaining = 0;
+        const auto o = attempt(s.m_bytes.data(), s.m_bytes.size(), [&](std::istream& is) { copy->read(is); }, &remaining);
+        c.count("roundtrips");
+        if (o != outcome_t::accepted)
+        {
+            k.violation("C15|roundtrip|read-failed|" + object, describe().kv("outcome", name(o)));
+            return;
+        }
+        if (!same_configurable(*obj, *copy) || remaining != 0)
+        {
+            k.violation("C15|roundtrip|parameters-differ|" + object, describe().kv("read_back", params_text(*copy)));
+            return;
+        }
+        const auto s2 = record([&](std::ostream& os) { copy->write(os); });
+        c.count("reserializations");
+        if (!s2.m_good || s2.m_bytes != s.m_bytes)
+        {
+            k.violation("C15|roundtrip|reserialization-differs|" + object, describe());
+        }
+    }
+    enumerate_faults(
+        k, object, s,
+        [&](std::istream& is)
+        {
+            auto fresh = tobject::all().get(id);
+            fresh->read(is);
+        },
+        header_values::masks);
+
+    // (b) type id + object
+    const auto sf = record([&](std::ostream& os) { ::nano::write(os, obj); });
+    if (!check_written(k, object + "|factory", sf))
+    {
+        return;
+    }
+    {
+        std::unique_ptr<tobject> copy;
+        size_t                   remaining = 0;
+        const auto               o =
+            attempt(sf.m_bytes.data(), sf.m_bytes.size(), [&](std::istream& is) { ::nano::read(is, copy); }, &remaining);
+        c.count("roundtrips");
+        if (o != outcome_t::accepted || !copy)
+        {
+            k.violation("C15|roundtrip|read-failed|factory|" + object, describe().kv("outcome", name(o)));
+            return;
+        }
+        if (copy->type_id() != id || !same_configurable(*obj, *copy) || remaining != 0)
+        {
+            k.violation("C15|roundtrip|parameters-differ|factory|" + object,
+                        describe().kv("read_id", copy->type_id()).kv("read_back", params_text(*copy)));
+            return;
+        }
+    }
+    enumerate_faults(
+        k, "factory|" + object, sf,
+        [&](std::istream& is)
+        {
+            std::unique_ptr<tobject> fresh;
+            ::nano::read(is, fresh);
+        },
+        header_values::masks);
+
+    // (c) a vector of factory objects (the nested reader of the models)
+    std::vector<std::unique_ptr<tobject>> many;
+    for (int64_t i = 0, n = rng.integer(0, 3); i < n; ++i)
+    {
+        many.emplace_back(tobject::all().get(rng.pick(ids)));
+        fuzz_parameters(rng, *many.back(), 0.5);
+    }
+    many.emplace_back(obj->clone());
+    const auto sv = record([&](std::ostream& os) { ::nano::write(os, many); });
+    if (!check_written(k, std::string(family) + "|vector", sv))
+    {
+        return;
+    }
+    {
+        std::vector<std::unique_ptr<tobject>> copy;
+        size_t                                remaining = 0;
+        const auto                            o =
+            attempt(sv.m_bytes.data(), sv.m_bytes.size(), [&](std::istream& is) { ::nano::read(is, copy); }, &remaining);
+        c.count("roundtrips");
+        bool same = o == outcome_t::accepted && copy.size() == many.size() && remaining == 0;
+        for (size_t i = 0; same && i < many.size(); ++i)
+        {
+            same = copy[i] && copy[i]->type_id() == many[i]->type_id() && same_configurable(*many[i], *copy[i]);
+        }
+        if (!same)
+        {
+            k.violation(std::string("C15|roundtrip|vector-differs|") + family,
+                        describe().kv("outcome", name(o)).kv("count", static_cast<unsigned long long>(many.size())));
+            return;
+        }
+    }
+    enumerate_faults(
+        k, std::string(family) + "|vector", sv,
+        [&](std::istream& is)
+        {
+            std::vector<std::unique_ptr<tobject>> fresh;
+            ::nano::read(is, fresh);
+        },
+        header_values::masks);
+
+    c.maxc("stream_bytes", static_cast<int64_t>(sv.m_bytes.size()));
+    nt_hash = vf::hash_bytes(sv.m_bytes.data(), sv.m_bytes.size(), vf::hash_str(object.c_str()));
+}
+
+rwlearners_t gen_prototypes(vf::rng_t& rng, int64_t min_count, int64_t max_count, const strings_t& ids)
+{
+    rwlearners_t protos;
+    for (int64_t i = 0, n = rng.integer(min_count, max_count); i < n; ++i)
+    {
+        protos.emplace_back(wlearner_t::all().get(rng.pick(ids)));
+        fuzz_parameters(rng, *protos.back(), 0.5);
+    }
+    return protos;
+}
+
+bool same_wlearner_configs(const rwlearners_t& a, const rwlearners_t& b)
+{
+    if (a.size() != b.size())
+    {
+        return false;
+    }
+    for (size_t i = 0; i < a.size(); ++i)
+    {
+        if (!a[i] || !b[i] || a[i]->type_id() != b[i]->type_id() || !same_configurable(*a[i], *b[i]))
+        {
+            return false;
+        }
+    }
+    return true;
+}
+
+void run_objects_case(vf::ctx_t& c)
+{
+    auto&      rng = c.rng;
+    case_t     k(c);
+    uint64_t   nt = 0;
+    vf::json_t decoded;
+    const auto what = rng.integer(0, 13);
+    switch (what)
+    {
+    case 0:
+    case 1:
+    {
+        std::string kind;
+        const auto  param    = gen_parameter(rng, kind);
+        const auto  describe = [&]()
+        {
+            vf::json_t j;
+            j.kv("object", "parameter:" + kind).kv("parameter", param_text(param));
+            return j;
+        };
+        c.count("objects:parameter");
+        check_value(k, "parameter:" + kind, param,
+                    [](const parameter_t& a, const parameter_t& b) { return same_param(a, b) && a == b && !(a != b); },
+                    describe);
+        decoded = describe();
+        nt      = vf::hash_str(param_text(param).c_str()) ^ vf::hash_str(kind.c_str());
+        break;
+    }
+    case 2:
+    {
+        parameters_t params(static_cast<size_t>(rng.integer(0, 5)));
+        std::string  kinds;
+        for (auto& p : params)
+        {
+            std::string kind;
+            p = gen_parameter(rng, kind);
+            kinds += kind + ",";
+        }
+        const auto describe = [&]()
+        {
+            vf::json_t j;
+            j.kv("object", "parameters").kv("kinds", kinds);
+            return j;
+        };
+        c.count("objects:parameters");
+        check_value(k, "parameters", params, same_params, describe);
+        decoded = describe();
+        nt      = vf::hash_str(kinds.c_str()) ^ rng.next();
+        break;
+    }
+    case 3:
+    {
+        const auto feature  = gen_feature(rng);
+        const auto describe = [&]()
+        {
+            std::ostringstream os;
+            os << feature;
+            vf::json_t j;
+            j.kv("object", "feature").kv("feature", os.str());
+            return j;
+        };
+        c.count("objects:feature");
+        check_value(k, "feature", feature, same_feature, describe);
+        decoded = describe();
+        nt      = vf::hash_str(describe().str().c_str());
+        break;
+    }
+    case 4:
+    {
+        features_t features(static_cast<size_t>(rng.integer(0, 4)));
+        for (auto& f : features)
+        {
+            f = gen_feature(rng);
+        }
+        const auto describe = [&]()
+        {
+            vf::json_t j;
+            j.kv("object", "features").kv("count", static_cast<unsigned long long>(features.size()));
+            return j;
+        };
+        c.count("objects:features");
+        check_value(k, "features", features, same_features, describe);
+        decoded = describe();
+        nt      = features.empty() ? 0 : (vf::hash_str(features[0].name().c_str()) ^ rng.next());
+        break;
+    }
+    case 5: c.count("objects:solver"); check_factory<solver_t>(k, "solver", nt, decoded); break;
+    case 6: c.count("objects:loss"); check_factory<loss_t>(k, "loss", nt, decoded); break;
+    case 7: c.count("objects:splitter"); check_factory<splitter_t>(k, "splitter", nt, decoded); break;
+    case 8: c.count("objects:tuner"); check_factory<tuner_t>(k, "tuner", nt, decoded); break;
+    case 9:
+        if (rng.chance(0.5))
+        {
+            c.count("objects:lsearch0");
+            check_factory<lsearch0_t>(k, "lsearch0", nt, decoded);
+        }
+        else
+        {
+            c.count("objects:lsearchk");
+            check_factory<lsearchk_t>(k, "lsearchk", nt, decoded);
+        }
+        break;
+    case 10: c.count("objects:wlearner"); check_factory<wlearner_t>(k, "wlearner", nt, decoded); break;
+    case 11: c.count("objects:linear"); check_factory<linear_t>(k, "linear", nt, decoded); break;
+    default:
+    {
+        // un-fitted gradient boosting model with configured prototypes (nested vector of factory objects)
+        c.count("objects:gboost");
+        gboost_model_t model;
+        fuzz_parameters(rng, model, 0.7);
+        model.prototypes(gen_prototypes(rng, 0, 4, wlearner_t::all().ids()));
+        const auto object   = std::string("gboost:unfitted");
+        const auto describe = [&]()
+        {
+            vf::json_t j;
+            j.kv("object", object).kv("parameters", params_text(model));
+            j.kv("prototypes", static_cast<unsigned long long>(model.prototypes().size()));
+            return j;
+        };
+        decoded      = describe();
+        const auto s = record([&](std::ostream& os) { model.write(os); });
+        if (!check_written(k, object, s))
+        {
+            break;
+        }
+        {
+            gboost_model_t copy;
+            size_t         remaining = 0;
+            const auto o = attempt(s.m_bytes.data(), s.m_bytes.size(), [&](std::istream& is) { copy.read(is); }, &remaining);
+            c.count("roundtrips");
+            if (o != outcome_t::accepted)
+            {
+                k.violation("C15|roundtrip|read-failed|" + object, describe().kv("outcome", name(o)));
+                break;
+            }
+            if (!same_configurable(model, copy) || !same_wlearner_configs(model.prototypes(), copy.prototypes()) ||
+                !copy.wlearners().empty() || !same_tensor(model.bias(), copy.bias()) || remaining != 0)
+            {
+                k.violation("C15|roundtrip|parameters-differ|" + object, describe().kv("read_back", params_text(copy)));
+                break;
+            }
+            const auto s2 = record([&](std::ostream& os) { copy.write(os); });
+            c.count("reserializations");
+            if (!s2.m_good || s2.m_bytes != s.m_bytes)
+            {
+                k.violation("C15|roundtrip|reserialization-differs|" + object, describe());
+            }
+        }
+        enumerate_faults(
+            k, object, s,
+            [](std::istream& is)
+            {
+                gboost_model_t fresh;
+                fresh.read(is);
+            },
+            header_values::masks);
+        c.maxc("stream_bytes", static_cast<int64_t>(s.m_bytes.size()));
+        nt = vf::hash_bytes(s.m_bytes.data(), s.m_bytes.size());
+        break;
+    }
+    }
+    if (nt != 0)
+    {
+        c.nontrivial(nt);
+    }
+    if (c.want_sample())
+    {
+        c.sample(decoded);
+    }
+}
+
+// ------------------------------------------------------------------------------------------------
+// mode: models (fitted weak learners, linear models, gradient boosting models on shadow datasets)
+
+///
+/// \brief in-memory data source filled by the harness: continuous (float64, float32, int16), categorical and
+///     multi-label inputs with missing values, scalar regression target that depends on them.
+///
+class shadow_datasource_t final : public datasource_t
+{
+public:
+    shadow_datasource_t(tensor_size_t samples, uint64_t seed)
+        : datasource_t("shadow")
+        , m_samples(samples)
+        , m_seed(seed)
+    {
+    }
+
+    rdatasource_t clone() const override { return std::make_unique<shadow_datasource_t>(*this); }
+
+    void do_load() override
+    {
+        vf::rng_t  rng(m_seed);
+        features_t features{feature_t{"x0"}.scalar(feature_type::float64), feature_t{"x1"}.scalar(feature_type::float32),
+                            feature_t{"x2"}.scalar(feature_type::int16),   feature_t{"c0"}.sclass(3),
+                            feature_t{"m0"}.mclass(3),                     feature_t{"y"}.scalar(feature_type::float64)};
+        resize(m_samples, features, 5U);
+        const auto w0 = rng.uniform(-1.0, 1.0), w1 = rng.uniform(-1.0, 1.0), w2 = rng.uniform(-0.2, 0.2);
+        const auto missing = rng.uniform(0.0, 0.15);
+        m_targets.resize(m_samples);
+        for (tensor_size_t s = 0; s < m_samples; ++s)
+        {
+            const double x0 = rng.uniform(-1.0, 1.0), x1 = rng.uniform(0.0, 3.0);
+            const auto   x2 = static_cast<int16_t>(rng.integer(-5, 5));
+            const auto   c0 = static_cast<int32_t>(rng.integer(0, 2));
+            if (!rng.chance(missing))
+            {
+                set(s, 0, x0);
+            }
+            if (!rng.chance(missing))
+            {
+                set(s, 1, x1);
+            }
+            if (!rng.chance(missing))
+            {
+                set(s, 2, x2);
+            }
+            if (!rng.chance(missing))
+            {
+                set(s, 3, c0);
+            }
+            tensor_mem_t<int8_t, 1> hits(3);
+            for (tensor_size_t h = 0; h < 3; ++h)
+            {
+                hits(h) = static_cast<int8_t>(rng.integer(0, 1));
+            }
+            if (!rng.chance(missing))
+            {
+                set(s, 4, hits);
+            }
+            const auto y = w0 * x0 + w1 * (x1 > 1.5 ? 1.0 : -0.5) + w2 * x2 + (c0 == 1 ? 0.7 : -0.2) +
+                           0.3 * static_cast<double>(hits(0)) + 0.05 * rng.uniform(-1.0, 1.0);
+            set(s, 5, y);
+            m_targets(s) = y;
+        }
+    }
+
+    tensor_size_t m_samples;
+    uint64_t      m_seed;
+    tensor1d_t    m_targets;
+};
+
+bool same_nodes(const dtree_nodes_t& a, const dtree_nodes_t& b)
+{
+    if (a.size() != b.size())
+    {
+        return false;
+    }
+    for (size_t i = 0; i < a.size(); ++i)
+    {
+        if (a[i].m_feature != b[i].m_feature || !same_bits(a[i].m_threshold, b[i].m_threshold) ||
+            a[i].m_next != b[i].m_next || a[i].m_table != b[i].m_table)
+        {
+            return false;
+        }
+    }
+    return true;
+}
+
+///
+/// \brief fitted state through the public accessors, bit-exact.  Returns the name of the first differing item.
+///
+std::string wlearner_difference(const wlearner_t& a, const wlearner_t& b)
+{
+    if (a.type_id() != b.type_id())
+    {
+        return "type_id";
+    }
+    if (!same_configurable(a, b))
+    {
+        return "parameters";
+    }
+    if (!same_tensor(a.features(), b.features()))
+    {
+        return "features()";
+    }
+    if (const auto* sa = dynamic_cast<const single_feature_wlearner_t*>(&a))
+    {
+        const auto* sb = dynamic_cast<const single_feature_wlearner_t*>(&b);
+        if (sb == nullptr || sa->feature() != sb->feature() || !same_tensor(sa->tables(), sb->tables()))
+        {
+            return "feature()/tables()";
+        }
+    }
+    if (const auto* sa = dynamic_cast<const stump_wlearner_t*>(&a))
+    {
+        const auto* sb = dynamic_cast<const stump_wlearner_t*>(&b);
+        if (sb == nullptr || !same_bits(sa->threshold(), sb->threshold()))
+        {
+            return "stump threshold()";
+        }
+    }
+    if (const auto* sa = dynamic_cast<const hinge_wlearner_t*>(&a))
+    {
+        const auto* sb = dynamic_cast<const hinge_wlearner_t*>(&b);
+        if (sb == nullptr || !same_bits(sa->threshold(), sb->threshold()) || sa->hinge() != sb->hinge())
+        {
+            return "hinge threshold()/hinge()";
+        }
+    }
+    if (const auto* sa = dynamic_cast<const table_wlearner_t*>(&a))
+    {
+        const auto* sb = dynamic_cast<const table_wlearner_t*>(&b);
+        if (sb == nullptr || !same_tensor(sa->hashes(), sb->hashes()) || !same_tensor(sa->hash2tables(), sb->hash2tables()))
+        {
+            return "table hashes()/hash2tables()";
+        }
+    }
+    if (const auto* sa = dynamic_cast<const dtree_wlearner_t*>(&a))
+    {
+        const auto* sb = dynamic_cast<const dtree_wlearner_t*>(&b);
+        if (sb == nullptr || !same_nodes(sa->nodes(), sb->nodes()) || !same_tensor(sa->tables(), sb->tables()))
+        {
+            return "dtree nodes()/tables()";
+        }
+    }
+    return "";
+}
+
+struct model_env_t
+{
+    model_env_t(tensor_size_t samples, uint64_t seed)
+        : m_source(samples, seed)
+    {
+        m_source.load();
+        m_dataset = std::make_unique<dataset_t>(m_source, 1U);
+        m_dataset->add<scalar_identity_generator_t>();
+        m_dataset->add<sclass_identity_generator_t>();
+        m_dataset->add<mclass_identity_generator_t>();
+        m_all = arange(0, m_dataset->samples());
+    }
+
+    shadow_datasource_t        m_source;
+    std::unique_ptr<dataset_t> m_dataset;
+    indices_t                  m_all;
+};
+
+indices_t gen_subset(vf::rng_t& rng, tensor_size_t samples)
+{
+    if (rng.chance(0.4))
+    {
+        return arange(0, samples);
+    }
+    std::vector<tensor_size_t> kept;
+    const auto                 keep = rng.uniform(0.6, 0.95);
+    for (tensor_size_t s = 0; s < samples; ++s)
+    {
+        if (rng.chance(keep))
+        {
+            kept.push_back(s);
+        }
+    }
+    indices_t subset(static_cast<tensor_size_t>(kept.size()));
+    for (size_t i = 0; i < kept.size(); ++i)
+    {
+        subset(static_cast<tensor_size_t>(i)) = kept[i];
+    }
+    return subset;
+}
+
+///
+/// \brief everything the statement promises for one model object given as (write, fresh+read, compare, predict).
+///
+/// tmake() -> fresh un-fitted object (unique_ptr or value wrapped by the callers); tdiff(a, b) -> "" if identical.
+///
+template <class tmodel, class tmake, class tdiff>
+bool check_model(case_t& k, const std::string& object, const tmodel& model, const tmake& make, const tdiff& difference,
+                 const model_env_t& env, const vf::json_t& decoded, uint64_t& nt_hash, bool predictable = true)
+{
+    auto&      c = k.m_c;
+    const auto s = record([&](std::ostream& os) { model.write(os); });
+    if (!check_written(k, object, s))
+    {
+        return false;
+    }
+    auto       copy      = make();
+    size_t     remaining = 0;
+    const auto o = attempt(s.m_bytes.data(), s.m_bytes.size(), [&](std::istream& is) { copy->read(is); }, &remaining);
+    c.count("roundtrips");
+    if (o != outcome_t::accepted)
+    {
+        auto j = decoded;
+        k.violation("C15|roundtrip|read-failed|" + object, j.kv("outcome", name(o)));
+        return false;
+    }
+    const auto diff = difference(model, *copy);
+    c.count("state_comparisons");
+    if (!diff.empty() || remaining != 0)
+    {
+        auto j = decoded;
+        k.violation("C15|roundtrip|state-differs|" + object,
+                    j.kv("differs", diff).kv("unread_bytes", static_cast<unsigned long long>(remaining)));
+    }
+    // predictions, bit for bit (also the zero rows of samples the model does not cover); a learner that could not be
+    // fitted knows no inputs and refuses to predict
+    if (predictable)
+    {
+        const auto p1 = model.predict(*env.m_dataset, env.m_all);
+        const auto p2 = copy->predict(*env.m_dataset, env.m_all);
+        c.count("prediction_comparisons");
+        c.count("predictions_compared", static_cast<int64_t>(p1.size()));
+        if (!same_tensor(p1, p2))
+        {
+            auto j = decoded;
+            j.arr("original", p1.data(), static_cast<size_t>(p1.size()), 16);
+            j.arr("read_back", p2.data(), static_cast<size_t>(p2.size()), 16);
+            k.violation("C15|roundtrip|predictions-differ|" + object, j);
+        }
+        bool nonzero = false;
+        for (tensor_size_t i = 0; i < p1.size(); ++i)
+        {
+            nonzero = nonzero || p1(i) != 0.0;
+        }
+        if (nonzero)
+        {
+            nt_hash = vf::hash_bytes(s.m_bytes.data(), s.m_bytes.size(), vf::hash_str(object.c_str()));
+        }
+    }
+    const auto s2 = record([&](std::ostream& os) { copy->write(os); });
+    c.count("reserializations");
+    if (!s2.m_good || s2.m_bytes != s.m_bytes)
+    {
+        k.violation("C15|roundtrip|reserialization-differs|" + object, decoded);
+    }
+    enumerate_faults(
+        k, object, s,
+        [&](std::istream& is)
+        {
+            auto fresh = make();
+            fresh->read(is);
+        },
+        header_values::masks);
+    c.maxc("stream_bytes", static_cast<int64_t>(s.m_bytes.size()));
+    return true;
+}
+
+ml::params_t tiny_fit_params(vf::rng_t& rng)
+{
+    auto params = ml::params_t{};
+    params.tuner(rng.chance(0.5) ? "local-search" : "surrogate");
+    params.solver(rng.chance(0.7) ? "lbfgs" : "cgd-pr");
+    params.splitter(rng.chance(0.7) ? "k-fold" : "random");
+    return params;
+}
+
+void configure_tiny(ml::params_t& params, vf::rng_t& rng)
+{
+    auto tuner    = params.tuner().clone();
+    auto solver   = params.solver().clone();
+    auto splitter = params.splitter().clone();
+    tuner->parameter("tuner::max_evals")   = 10;
+    solver->parameter("solver::max_evals") = rng.integer(20, 60);
+    solver->parameter("solver::epsilon")   = 1e-6;
+    splitter->parameter("splitter::folds") = 2;
+    splitter->parameter("splitter::seed")  = rng.integer(0, 1024);
+    params.tuner(*tuner).solver(*solver).splitter(*splitter).logger(make_null_logger());
+}
+
+void run_models_case(vf::ctx_t& c)
+{
+    auto&  rng = c.rng;
+    case_t k(c);
+    nano::verif::rng_seed().store(c.seed | 1U);
+
+    const auto  samples = static_cast<tensor_size_t>(rng.integer(40, c.args.thorough() ? 160 : 100));
+    const auto  dseed   = rng.next();
+    model_env_t env(samples, dseed);
+    const auto& dataset = *env.m_dataset;
+    const auto  subset  = gen_subset(rng, samples);
+
+    uint64_t   nt = 0;
+    vf::json_t decoded;
+    decoded.kv("samples", static_cast<long long>(samples)).kv("fit_samples", static_cast<long long>(subset.size()));
+    decoded.kv("dataset_seed", static_cast<unsigned long long>(dseed));
+
+    const auto what = rng.integer(0, 9);
+    if (what <= 5)
+    {
+        // one fitted weak learner
+        const auto ids = wlearner_t::all().ids();
+        const auto id  = rng.pick(ids);
+        auto       wl  = wlearner_t::all().get(id);
+        fuzz_parameters(rng, *wl, 0.5);
+        if (rng.chance(id == "dtree" ? 0.8 : 0.4))
+        {
+            wl->parameter("wlearner::criterion") = wlearner_criterion::rss;
+        }
+        tensor4d_t gradients(cat_dims(dataset.samples(), dataset.target_dims()));
+        for (tensor_size_t s = 0; s < dataset.samples(); ++s)
+        {
+            gradients(s) = -env.m_source.m_targets(s) + 0.1 * rng.uniform(-1.0, 1.0);
+        }
+        const auto score  = wl->fit(dataset, subset, gradients);
+        const bool fitted = score != wlearner_t::no_fit_score();
+        if (fitted && rng.chance(0.3))
+        {
+            vector_t scale = vector_t::constant(1, rng.uniform(0.1, 2.0));
+            wl->scale(scale);
+        }
+        const auto object = "wlearner:" + id;
+        decoded.kv("object", object).kv("score", score).kv("fitted", fitted).kv("parameters", params_text(*wl));
+        c.count("models:" + object);
+        c.count(fitted ? "models:wlearner_fitted" : "models:wlearner_no_fit");
+
+        uint64_t h = 0;
+        check_model(
+            k, object, *wl, [&]() { return wlearner_t::all().get(id); },
+            [](const wlearner_t& a, const wlearner_t& b) { return wlearner_difference(a, b); }, env, decoded, h, fitted);
+        nt = fitted ? h : 0;
+
+        // the fitted learner inside the nested reader (vector of factory objects)
+        if (fitted)
+        {
+            rwlearners_t many;
+            many.emplace_back(wl->clone());
+            many.emplace_back(wlearner_t::all().get(rng.pick(ids)));
+            many.emplace_back(wl->clone());
+            const auto sv = record([&](std::ostream& os) { ::nano::write(os, many); });
+            if (check_written(k, "wlearners|vector", sv))
+            {
+                rwlearners_t copy;
+                const auto   o = attempt(sv.m_bytes.data(), sv.m_bytes.size(), [&](std::istream& is) { ::nano::read(is, copy); });
+                c.count("roundtrips");
+                bool same = o == outcome_t::accepted && copy.size() == many.size();
+                for (size_t i = 0; same && i < many.size(); ++i)
+                {
+                    same = copy[i] && wlearner_difference(*many[i], *copy[i]).empty();
+                }
+                if (!same)
+                {
+                    k.violation("C15|roundtrip|vector-differs|wlearners", decoded);
+                }
+                enumerate_faults(
+                    k, "wlearners|vector", sv,
+                    [](std::istream& is)
+                    {
+                        rwlearners_t fresh;
+                        ::nano::read(is, fresh);
+                    },
+                    header_values::masks);
+            }
+        }
+    }
+    else if (what <= 7)
+    {
+        // one fitted linear model
+        const auto id    = rng.pick(linear_t::all().ids());
+        auto       model = linear_t::all().get(id);
+        model->parameter("linear::batch")   = rng.integer(10, 64);
+        model->parameter("linear::scaling") = rng.pick(std::vector<scaling_type>{scaling_type::none, scaling_type::mean, scaling_type::minmax, scaling_type::standard});
+        const auto loss   = loss_t::all().get(rng.pick(std::vector<std::string>{"mse", "mae", "cauchy"}));
+        auto       params = tiny_fit_params(rng);
+        configure_tiny(params, rng);
+        model->fit(dataset, subset, *loss, params);
+        const auto object = "linear:" + id;
+        decoded.kv("object", object).kv("loss", loss->type_id()).kv("parameters", params_text(*model));
+        decoded.arr("bias", model->bias().data(), static_cast<size_t>(model->bias().size()), 4);
+        decoded.arr("weights", model->weights().data(), static_cast<size_t>(model->weights().size()), 12);
+        c.count("models:" + object);
+        check_model(
+            k, object, *model, [&]() { return linear_t::all().get(id); },
+            [](const linear_t& a, const linear_t& b) -> std::string
+            {
+                return !same_configurable(a, b)                ? "parameters"
+                     : !same_tensor(a.bias(), b.bias())       ? "bias()"
+                     : !same_tensor(a.weights(), b.weights()) ? "weights()"
+                                                              : "";
+            },
+            env, decoded, nt);
+    }
+    else
+    {
+        // one fitted gradient boosting model (10 rounds at most, 1..3 prototypes)
+        auto model = std::make_unique<gboost_model_t>();
+        model->parameter("gboost::max_rounds") = 10;
+        model->parameter("gboost::patience")   = rng.integer(1, 3);
+        model->parameter("gboost::batch")      = rng.integer(10, 64);
+        model->parameter("gboost::seed")       = rng.integer(0, 1024);
+        model->parameter("gboost::wscale")     = rng.pick(std::vector<gboost_wscale>{gboost_wscale::gboost, gboost_wscale::tboost});
+        model->parameter("gboost::shrinkage")  = rng.pick(std::vector<gboost_shrinkage>{gboost_shrinkage::off, gboost_shrinkage::off, gboost_shrinkage::local});
+        if (rng.chance(0.3))
+        {
+            model->parameter("gboost::subsample")       = rng.pick(std::vector<gboost_subsample>{gboost_subsample::subsample, gboost_subsample::bootstrap, gboost_subsample::wei_loss_bootstrap});
+            model->parameter("gboost::subsample_ratio") = rng.uniform(0.6, 1.0);
+        }
+        auto protos = gen_prototypes(rng, 1, 3, strings_t{"affine", "stump", "hinge", "dense-table", "kbest-table", "ksplit-table", "dtree"});
+        for (auto& proto : protos)
+        {
+            if (rng.chance(0.6))
+            {
+                proto->parameter("wlearner::criterion") = wlearner_criterion::rss;
+            }
+        }
+        std::string proto_ids;
+        for (const auto& proto : protos)
+        {
+            proto_ids += proto->type_id() + ",";
+        }
+        model->prototypes(std::move(protos));
+        const auto loss   = loss_t::all().get(rng.pick(std::vector<std::string>{"mse", "mae", "cauchy"}));
+        auto       params = tiny_fit_params(rng);
+        configure_tiny(params, rng);
+        model->fit(dataset, subset, *loss, params);
+        const auto object = std::string("gboost:fitted");
+        decoded.kv("object", object).kv("loss", loss->type_id()).kv("prototypes", proto_ids);
+        decoded.kv("wlearners", static_cast<unsigned long long>(model->wlearners().size())).kv("parameters", params_text(*model));
+        c.count("models:" + object);
+        c.count("models:gboost_wlearners", static_cast<int64_t>(model->wlearners().size()));
+        uint64_t h = 0;
+        check_model(
+            k, object, *model, []() { return std::make_unique<gboost_model_t>(); },
+            [](const gboost_model_t& a, const gboost_model_t& b) -> std::string
+            {
+                if (!same_configurable(a, b))
+                {
+                    return "parameters";
+                }
+                if (!same_tensor(a.bias(), b.bias()))
+                {
+                    return "bias()";
+                }
+                if (!same_wlearner_configs(a.prototypes(), b.prototypes()))
+                {
+                    return "prototypes()";
+                }
+                if (a.wlearners().size() != b.wlearners().size())
+                {
+                    return "wlearners().size()";
+                }
+                for (size_t i = 0; i < a.wlearners().size(); ++i)
+                {
+                    const auto d = wlearner_difference(*a.wlearners()[i], *b.wlearners()[i]);
+                    if (!d.empty())
+                    {
+                        return "wlearner[" + std::to_string(i) + "]: " + d;
+                    }
+                }
+                return !same_tensor(a.features(), b.features()) ? "features()" : "";
+            },
+            env, decoded, h);
+        nt = model->wlearners().empty() ? 0 : h;
+    }
+
+    if (nt != 0)
+    {
+        c.nontrivial(nt);
+    }
+    if (c.want_sample())
+    {
+        c.sample(decoded);
+    }
+}
 } // namespace
 
 int main(int argc, char** argv)
@@ -883,6 +2069,29 @@ int main(int argc, char** argv)
                        "write + re-serialisation + EVERY strict prefix + EVERY payload byte x 255 values + EVERY header byte x "
                        "255 values; non-trivial: >= 1 element; distinct by hash(scalar type, dims, content)",
                        [&](vf::ctx_t& c) { run_tensor_case(c, max_payload); });
+    }
+    if (args.mode == "objects")
+    {
+        return vf::run(args, "C15",
+                       "case = one of: parameter (7 kinds, random names/domains/values), list of parameters, feature, list of "
+                       "features, factory object (solver|loss|splitter|tuner|lsearch0|lsearchk|wlearner|linear; default or every "
+                       "parameter fuzzed inside its domain) through member, type-id and vector<unique_ptr> serialisation, "
+                       "un-fitted gboost model with 0..4 configured prototypes: round trip (bit-exact field comparison + "
+                       "library ==) + re-serialisation + EVERY strict prefix; non-trivial: every case with a non-empty object; "
+                       "distinct by hash(stream bytes / printed object)",
+                       [&](vf::ctx_t& c) { run_objects_case(c); });
+    }
+    if (args.mode == "models")
+    {
+        return vf::run(args, "C15",
+                       "case = shadow dataset (40..100 samples; float64/float32/int16/categorical/multi-label inputs with "
+                       "missing values) + one of: weak learner (8 ids, fuzzed parameters) fitted on residual-like gradients, "
+                       "linear model (4 ids x 3 losses x 4 scalings, tiny tuning), gboost model (<= 10 rounds, 1..3 "
+                       "prototypes): round trip (parameters, fitted state through the accessors, predictions on all samples "
+                       "bit for bit, re-serialisation) + EVERY strict prefix + EVERY tensor payload byte x 255 values + "
+                       "tensor header bytes x 5 values, also inside vector<unique_ptr>; non-trivial: the model is fitted "
+                       "and predicts something non-zero; distinct by hash(stream bytes)",
+                       [&](vf::ctx_t& c) { run_models_case(c); });
     }
     std::fprintf(stderr, "unknown mode %s\n", args.mode.c_str());
     return 3;
